@@ -375,7 +375,25 @@ func checkVectors(res *result, lo, hi uint64, step uint64) {
 				return
 			}
 		}
-		res.Evals += int64(len(vec))
+		// what a bucket hands back starts at an arbitrary address: the same bytes at
+		// every offset 0..7 from an aligned base must decode to the same vector
+		for off := 0; off < 8; off++ {
+			buf := make([]byte, len(b)+8)
+			src := buf[off : off+len(b)]
+			copy(src, b)
+			got := conversion.BytesToFloat32(src)
+			if len(got) != len(vec) {
+				res.v("vector-roundtrip-unaligned", "vector of %d floats at source offset %d decodes to %d floats", len(vec), off, len(got))
+				return
+			}
+			for i := range vec {
+				if math.Float32bits(got[i]) != math.Float32bits(vec[i]) {
+					res.v("vector-roundtrip-unaligned", "float32 bits %08x at index %d of a %d-vector decode to %08x when the stored bytes start at offset %d from an aligned address", math.Float32bits(vec[i]), i, len(vec), math.Float32bits(got[i]), off)
+					return
+				}
+			}
+		}
+		res.Evals += int64(len(vec)) * 9
 		res.Nontriv++
 		length = length%4096 + 1
 	}
@@ -666,6 +684,15 @@ func worker(raw json.RawMessage) (json.RawMessage, error) {
 					break
 				}
 			}
+			for off := 1; off < 8; off++ {
+				buf := make([]byte, len(b)+8)
+				src := buf[off : off+len(b)]
+				copy(src, b)
+				if got := conversion.BytesToEdgeList(src); fmt.Sprint(got) != fmt.Sprint(edges) && n > 0 {
+					res.v("edge-list-roundtrip-unaligned", "n=%d, stored bytes at offset %d from an aligned address: %v -> %v", n, off, edges, got)
+					break
+				}
+			}
 			res.Evals++
 		}
 		res.Sample = map[string]any{"family": "boundary ids x all 256 suffixes; boundary uuids x all 256 suffixes; edge lists 0..64,4096", "ids": len(ids), "uuids": len(us)}
@@ -710,7 +737,7 @@ func seq(a, b int) []int {
 }
 
 func master(cfg *harness.Config, rep *harness.Report) {
-	rep.Rule = "families: int64 ±2^k+δ (k<64,|δ|<=2) with all pairs; float64 all 2046 exponents x sign x 4 mantissa corners + zeros, subnormals, infinities in value order (adjacent pairs => all pairs by transitivity); all strings of length<=4 over 7 bytes; text-index term keys for all terms of length<=5 over the key marker bytes {t,s,d,a,00,ff} and the decoder on all candidate keys of length<=6; boundary uint64 ids x all 256 key suffixes; boundary uuids x 256 suffixes; edge lists of length 0..64 and 4096; float32 bit patterns (quick: 2^20 patterns with stride 4096 covering every sign/exponent and 12 mantissa bits, thorough: all 2^32) packed into vectors of length 1..4096; all range/prefix scans over 15-value families on memstore and bbolt; thorough adds all int64 of the form v<<s (v any int32, s in {0,31}) and every non-NaN float32 widened to float64. non-trivial = sign/exponent boundary crossed between neighbours, proper sub-range scans, distinct ids"
+	rep.Rule = "families: int64 ±2^k+δ (k<64,|δ|<=2) with all pairs; float64 all 2046 exponents x sign x 4 mantissa corners + zeros, subnormals, infinities in value order (adjacent pairs => all pairs by transitivity); all strings of length<=4 over 7 bytes; text-index term keys for all terms of length<=5 over the key marker bytes {t,s,d,a,00,ff} and the decoder on all candidate keys of length<=6; boundary uint64 ids x all 256 key suffixes; boundary uuids x 256 suffixes; edge lists of length 0..64 and 4096; float32 bit patterns (quick: 2^20 patterns with stride 4096 covering every sign/exponent and 12 mantissa bits, thorough: all 2^32) packed into vectors of length 1..4096, each decoded from the encoder's buffer and from copies at every source offset 0..7; all range/prefix scans over 15-value families on memstore and bbolt; thorough adds all int64 of the form v<<s (v any int32, s in {0,31}) and every non-NaN float32 widened to float64. non-trivial = sign/exponent boundary crossed between neighbours, proper sub-range scans, distinct ids"
 	rep.Assumptions = []string{"values outside the families (most int64/float64 bit patterns) are covered only in the thorough sweeps stated in the rule", "native little-endian machine: the raw float32 codec is the one selected at init"}
 	var jobs []json.RawMessage
 	add := func(j job) {
